@@ -82,6 +82,12 @@ class Canon:
         return ("?",)
 
     def test(self, t):
+        if isinstance(t, ast.UnaryOp) and isinstance(t.op, ast.Not) and isinstance(t.operand, ast.Compare) \
+                and len(t.operand.ops) == 1 and type(t.operand.ops[0]) in (ast.Lt, ast.LtE, ast.Gt, ast.GtE, ast.Eq, ast.NotEq):
+            # integers (the planners' costs and step counts are integers): `not a > b` is `a <= b`
+            c = t.operand
+            flip = {ast.Lt: ast.GtE, ast.LtE: ast.Gt, ast.Gt: ast.LtE, ast.GtE: ast.Lt, ast.Eq: ast.NotEq, ast.NotEq: ast.Eq}
+            return self.test(ast.copy_location(ast.Compare(c.left, [flip[type(c.ops[0])]()], c.comparators), t))
         if isinstance(t, ast.BoolOp):
             return ("or" if isinstance(t.op, ast.Or) else "and",) + tuple(self.test(v) for v in t.values)
         if isinstance(t, ast.Compare) and len(t.ops) == 1:
@@ -390,15 +396,33 @@ def rec_rules(chk, ctx):
         def visit(stmts, in_loop):
             for st_ in stmts:
                 if isinstance(st_, ast.If):
-                    for t in ast.walk(st_.test):
+                    NEG = {ast.Lt: ast.GtE, ast.LtE: ast.Gt, ast.Gt: ast.LtE, ast.GtE: ast.Lt}
+
+                    def compares(e, neg):
+                        """comparisons of the test with the polarity under which the branch is taken (`not a > b` is `a <= b`)"""
+                        if isinstance(e, ast.UnaryOp) and isinstance(e.op, ast.Not):
+                            yield from compares(e.operand, not neg)
+                        elif isinstance(e, ast.BoolOp):
+                            for v_ in e.values:
+                                yield from compares(v_, neg)
+                        elif isinstance(e, ast.Compare):
+                            yield e, neg
+                        else:
+                            for c_ in ast.iter_child_nodes(e):
+                                if isinstance(c_, ast.expr):
+                                    yield from compares(c_, None)
+                    for t, neg in compares(st_.test, False):
                         if isinstance(t, ast.Compare) and len(t.ops) == 1 and type(t.ops[0]) in (ast.Lt, ast.LtE, ast.Gt, ast.GtE):
                             l, r, op = t.left, t.comparators[0], type(t.ops[0])
+                            if neg:
+                                op = NEG[op]
+                            unknown = neg is None
                             if isinstance(l, ast.Name) and l.id in cands and not isinstance(r, ast.Constant):
-                                o_ = OPN[op]
-                                out.append((bool(in_loop), winner(in_loop, o_) if in_loop else o_, st_))
+                                o_ = "?" if unknown else OPN[op]
+                                out.append((bool(in_loop), (winner(in_loop, o_) if o_ != "?" else "?") if in_loop else o_, st_))
                             elif isinstance(r, ast.Name) and r.id in cands and not isinstance(l, ast.Constant):
-                                o_ = OPN[{ast.Lt: ast.Gt, ast.LtE: ast.GtE, ast.Gt: ast.Lt, ast.GtE: ast.LtE}[op]]
-                                out.append((bool(in_loop), winner(in_loop, o_) if in_loop else o_, st_))
+                                o_ = "?" if unknown else OPN[{ast.Lt: ast.Gt, ast.LtE: ast.GtE, ast.Gt: ast.Lt, ast.GtE: ast.LtE}[op]]
+                                out.append((bool(in_loop), (winner(in_loop, o_) if o_ != "?" else "?") if in_loop else o_, st_))
                     visit(st_.body, in_loop)
                     visit(st_.orelse, in_loop)
                 elif isinstance(st_, (ast.For, ast.While)):
@@ -440,7 +464,8 @@ def rec_rules(chk, ctx):
     sig = lambda a: [(x[0], x[1]) for x in a]
     if am and at:
         same = sig(am) == sig(at)
-        definite = len(am) == len(at)
+        definite = len(am) == len(at) and not any(x[1] == "?" for x in am + at)
+        same = same and definite
         chk.decide("C16.REC", "mixed#acceptance", True if same else (False if definite else None),
                    f"candidate acceptance (in the candidate loop: which of equally cheap candidates wins, by loop direction and operator; "
                    f"after it: the operator): memoised {sig(am)} vs tabulated {sig(at)}"
